@@ -89,6 +89,9 @@ pub enum Op {
     FindIn { u: usize, k: usize },
     /// collect the node's edge lists through the public iterators
     Snapshot { u: usize },
+    /// the same through an iterator adaptor (style of `Flavour::for_adapted`: for_each, fold,
+    /// ...), with a loop body that also queries the iterated node
+    SnapshotVia { u: usize, style: u8 },
     Search { root: usize, spec: SearchSpec },
     /// a read-only call on the shared container: 0 roots, 1 leaves, 2 orphans, 3 to_vec, 4 to_dot,
     /// 5 scc, 6 serialise (JSON), 7 to_dot_with_attr, 8 iter
@@ -117,6 +120,7 @@ impl Op {
             Op::FindOut { .. } => "find_outbound",
             Op::FindIn { .. } => "find_inbound",
             Op::Snapshot { .. } => "snapshot",
+            Op::SnapshotVia { .. } => "snapshot_via_adaptor",
             Op::Search { .. } => "search",
             Op::GView { .. } => "container_view",
         }
@@ -136,7 +140,8 @@ impl Op {
             | Op::IsConnected { u, .. }
             | Op::FindOut { u, .. }
             | Op::FindIn { u, .. }
-            | Op::Snapshot { u } => *u,
+            | Op::Snapshot { u }
+            | Op::SnapshotVia { u, .. } => *u,
             Op::Search { root, .. } => *root,
             Op::GView { .. } => 0,
         }
@@ -404,7 +409,7 @@ impl Model {
                 }
                 o => Err(format!("unexpected return {o:?}")),
             },
-            Op::Search { .. } | Op::GView { .. } => Ok(()),
+            Op::Search { .. } | Op::GView { .. } | Op::SnapshotVia { .. } => Ok(()),
         }
     }
 }
